@@ -3,7 +3,7 @@ C03 - CVSS v2 scores equal the guide's equations; None-ness exact.
 E1 product sweep on the real CVSS2 class against vf.ref.score2 (exact rationals).
 """
 
-from .. import core, spaces, sweep
+from .. import core, observe, spaces, sweep
 from ..engine import product
 from ..ref import official, score2, tables as T
 
@@ -20,7 +20,7 @@ def judge(vec, asg):
 
     exp = score2.scores(asg)
     try:
-        got = cvss.CVSS2(vec).scores()
+        got = observe.construct("2", vec).scores()
     except Exception as e:  # noqa
         return ("constructor/scores() raised %s: %s" % (type(e).__name__, e)), None, exp
     eb, et, ee = exp
